@@ -377,6 +377,15 @@ def enc_req(req):
 def encode(case):
     if case['kind'] == 'rule':
         return [3, int(case['reset'])] + list(case['ids'])
+    # computing str()/json.dumps() of the handler objects constructs ombott response objects: do it in a
+    # child, so that the parent (from which every history and every fresh request is forked) stays pristine
+    out = in_child(lambda: dict(enc=_encode(case)))
+    if 'enc' not in out:
+        raise RuntimeError('encode failed in the child: %s' % out)
+    return out['enc']
+
+
+def _encode(case):
     if case.get('retention'):
         return [4, int(case['peek']), len(SHARED), len(case['reqs'])] + enc_req(case['reqs'][0])
     eh = list({code: (code, spec) for code, spec in case['eh']}.values())
